@@ -805,17 +805,52 @@ func (r *Region) Guarded(site Item, p Pred) (bool, []*ssa.BasicBlock) {
 	return false, path
 }
 
-// ReturnsNilError: a Return whose last result is the nil constant.
+// RetVals resolves the results of a Return: in functions with defers go/ssa spills results to
+// local cells, stores them, runs the defers and reloads them; the value stored in the same block
+// is the value returned.
+func RetVals(r *ssa.Return) []ssa.Value {
+	out := make([]ssa.Value, len(r.Results))
+	b := r.Block()
+	idx := len(b.Instrs) - 1
+	for i, v := range r.Results {
+		out[i] = v
+		u, ok := v.(*ssa.UnOp)
+		if !ok || u.Op != token.MUL {
+			continue
+		}
+		al, ok := u.X.(*ssa.Alloc)
+		if !ok {
+			continue
+		}
+		for j := idx - 1; j >= 0; j-- {
+			if st, ok := b.Instrs[j].(*ssa.Store); ok && st.Addr == ssa.Value(al) {
+				out[i] = st.Val
+				break
+			}
+		}
+	}
+	return out
+}
+
+// IsRecoverBlock: the synthetic block that returns the named results after a recovered panic.
+func IsRecoverBlock(b *ssa.BasicBlock) bool { return b.Parent().Recover == b }
+
+// ReturnNilErr: a Return (not the recover block's) whose last result is the nil constant.
 func ReturnNilErr() Ev {
 	return func(it Item) bool {
 		r, ok := it.In.(*ssa.Return)
-		if !ok || len(r.Results) == 0 {
+		if !ok || len(r.Results) == 0 || IsRecoverBlock(r.Block()) {
 			return false
 		}
-		c, ok := r.Results[len(r.Results)-1].(*ssa.Const)
+		vs := RetVals(r)
+		c, ok := vs[len(vs)-1].(*ssa.Const)
 		return ok && c.Value == nil
 	}
 }
+
+// ErrVal matches an error value that is the sarama sentinel `name`, whether it is declared as a
+// KError constant or as a package-level error variable.
+func (p *Program) ErrVal(name string) VM { return OrV(p.NamedConst(name), GlobalLoad(name)) }
 
 // Edge of the CFG inside a region.
 type Edge struct{ From, To *ssa.BasicBlock }
